@@ -2,4 +2,3 @@
 G=/root/go/pkg/mod/golang.org/toolchain@v0.0.1-go1.24.0.linux-amd64
 if [ -d "$G/bin" ]; then PATH=$G/bin:$PATH; fi
 export PATH GOTOOLCHAIN=local GOFLAGS=-mod=mod GOPROXY=off GOSUMDB=off GONOSUMDB=* GONOSUMCHECK=1 GOFLAGS
-export CGO_ENABLED=0
